@@ -82,8 +82,15 @@ def compile_expression(
         >>> f = compile_expression(expr, [x, y])
         >>> f(np.array([3.0, 4.0]))  # Returns 25.0
     """
+    from optyx.core.parameters import Parameter
+
     # Create mapping from variable name to array index
     var_indices = {var.name: i for i, var in enumerate(variables)}
+
+    # Parameters hash and compare by name, but the compiled closure reads the
+    # value of one particular Parameter object: never share it through the cache
+    if isinstance(expr, Parameter):
+        return _build_evaluator(expr, var_indices)
 
     # Generate and cache the compiled function
     return _compile_cached(
